@@ -337,7 +337,7 @@ def main():
         }],
         "checks": checks,
         "not_applicable": [{"property_id": k, "reason": v} for k, v in sorted(NA.items()) if k not in CLAIMED],
-        "notes": "exit 0 = all registered obligations discharged; exit 1 = VIOLATION; exit 2 = UNDECIDED (lost anchor, unsupported construct, tool failure, vacuity, assumption allow-list mismatch) — never an alarm. Genuine defects repaired in /repo by unguarded `fix:` commits (recorded as `fixed` in known_findings.json, which suppresses nothing): 90b25f9, e446e6d, 49c30e7, 60035b8 (C11), b76f29c (C10), 176a896, ad9ee78 (C13, SQLite). Known findings, listed in known_findings.json and printed as KNOWN-FINDING lines: C12 (a session cookie name that percent-encoding changes leaves unprotected although a crypto rule names it — biscotti 0.4.3), C13 (SqliteSessionStore::create over a live record answers Ok without writing), C15 (query strings and urlencoded forms decode invalid UTF-8 lossily instead of failing). No hooks: /repo carries no verification-only code.",
+        "notes": "exit 0 = all registered obligations discharged; exit 1 = VIOLATION; exit 2 = UNDECIDED (lost anchor, unsupported construct, tool failure, vacuity, assumption allow-list mismatch) — never an alarm. Genuine defects repaired in /repo by unguarded `fix:` commits (recorded as `fixed` in known_findings.json, which suppresses nothing): 90b25f9, e446e6d, 49c30e7, 60035b8 (C11), b76f29c (C10), 176a896, ad9ee78 (C13, SQLite), 711f596 (C17, rustdoc_ir: reference mutability in template matching and equivalence). Known findings, listed in known_findings.json and printed as KNOWN-FINDING lines: C12 (a session cookie name that percent-encoding changes leaves unprotected although a crypto rule names it — biscotti 0.4.3), C13 (SqliteSessionStore::create over a live record answers Ok without writing), C15 (query strings and urlencoded forms decode invalid UTF-8 lossily instead of failing). No hooks: /repo carries no verification-only code.",
     }
     json.dump(m, open(os.path.join(V, "MANIFEST.json"), "w"), indent=1)
     print("claimed:", sorted(CLAIMED), "n/a:", len(m["not_applicable"]))
